@@ -43,6 +43,8 @@ for _o in "*/%":
 def leaf(v):
     if isinstance(v, list):
         return ("list", [leaf(x) for x in v])
+    if isinstance(v, tuple) and v[0] == "set":
+        return ("set", [leaf(x) for x in v[1]])
     return L(v)
 
 
@@ -155,7 +157,10 @@ def explore_pairs(chunk):
 # ---- part 1b: one operator, every operand pair of a wide pool ---------------
 WIDE = [0, 1, 2, 10, -2, -1, 1.5, 2.0, -0.5, True, False, None, "", "a",
         "ab", "b", "10", "2", [], [1], [2], [10], [-2], [-1], [1, 0], [1, 2],
-        [1.0], [[1]], ["a"], [None]]
+        [1.0], [[1]], ["a"], [None],
+        # sets, and sets whose elements are sets (1 next to 1.0 inside)
+        ("set", [1, 2]), ("set", [1, 2.0]), ("set", []),
+        ("set", [("set", [1, 2.0]), ("set", [3])]), ("set", [[1], "a"])]
 
 
 def explore_wide(chunk):
